@@ -27,6 +27,8 @@ OBLIGATIONS = ["NiftyVerif.C01." + t for t in (
     "groupKeys_spec", "ssum_groups", "sumFlatten_sound", "sumSimplify_sound", "mkSumU_sound",
     "sum_no_inverse_modes", "flip_member", "flip_sound", "invEnabler_invop_sound",
     "mkChainU_opnd", "matmul_sound", "flip_opnd", "scale_sound", "sandwichCore_sound", "mkSandwich_sound",
+    "chainPost_pres", "mkChainU_Inv", "sumSimplify_pres", "mkSumU_Inv", "flip_Inv", "adjointOf_sound",
+    "sandwichCore_sound2", "mkSum_pair", "sumRooted_lt", "tree_sound",
 )]
 RULE = ("random construction scripts (typed generator over 8 small domains, 14 leaves with independently known exact "
         "matrices, scaling/diagonal/partial-space diagonal/null/block-diagonal/sandwich/InversionEnabler, combined with "
@@ -570,6 +572,9 @@ def run(ctx):
     for c, r, m in zip(cases, reals, models):
         ctx.stat("top:" + c["script"]["op"])
         ctx.stat("valid" if c.get("valid", True) else "malformed")
+        if "error" not in m:
+            # is this script inside the scope of the Lean theorem `tree_sound` (computed by the model driver)?
+            ctx.stat("tree_sound:covered" if m.get("tree_sound_covers") else "tree_sound:outside-scope")
         if "error" in r:
             ctx.stat("impl-error:" + r["error"])
         else:
